@@ -287,6 +287,8 @@ def gen_cases(chk):
         c.expint_case(str(v) + "000", "E", -3)
         c.expint_case(str(v // 10), "e", 1)
         c.expint_case(str(v // 1000), "e", 3)
+    for m, k in (("12345678901234567890", -1), ("1_000_000_000_000_000_000_000", -6), ("123456789012345678901234567890", -12), ("98765432109876543210", -2)):
+        c.expint_case(m, "e", k)
     for m in ["0", "1", "9", "10", "922", "9223372036854775807", "00012"]:
         for k in [18, 19, 20, 100, 400, -1, -2, -3, -4, -19, -20, -21, -400, 0]:
             c.expint_case(m, "e", k)
